@@ -320,3 +320,14 @@ func (r *Run) Finish() {
 	}
 	_ = os.WriteFile(filepath.Join(r.OutDir, fmt.Sprintf("shard-%d.json", r.FileTag)), b, 0o644)
 }
+
+// DeadlockVerdict turns a node-internal mutex deadlock (see bubble.WatchDeadlocks) into a violation of this run.
+func (r *Run) DeadlockVerdict(prefix, frame, dump string) {
+	if len(dump) > 60000 {
+		dump = dump[:60000]
+	}
+	r.Violation(prefix+".node-deadlock:"+frame,
+		"a goroutine of the node has been blocked on a mutex for minutes at "+frame+" while its holder waits for something that cannot happen (real deadlock inside the node)",
+		map[string]interface{}{"case": r.curCase, "goroutines": strings.Split(dump, "\n")})
+	r.Finish()
+}
